@@ -174,8 +174,15 @@ def _take(b, pos, n):
     return b[pos : pos + n], pos + n
 
 
+def ill_param(t):
+    """A leaf name that carries a parameter list (uint16_t<vendor_ext>): no codec accepts it."""
+    return (t[0] in LEAVES and bool(t[1])) or any(ill_param(x) for x in t[1])
+
+
 def _dec(b, pos, t):
     n, subs = t
+    if n in LEAVES and subs:
+        raise RefError("ill-parametrised leaf type %s" % type_str(t))
     if n in INTS:
         size, signed = INTS[n]
         raw, pos = _take(b, pos, size)
